@@ -287,7 +287,9 @@ OnAd(e) ==
        ELSE IF e.op = "ack" THEN
             LET known == \E u \in ad.unacked : u[1] = e.ack
                 u0 == CHOOSE u \in ad.unacked : u[1] = e.ack
-                early == IF known /\ u0[3] \in Jobs THEN (IF exits[u0[3]] = 0 THEN 1 ELSE 0) ELSE 0
+                \* acknowledged although the worker function has not returned for it - or will never run for it (an entry that is no job of
+                \* this program: undecodable, foreign, already closed)
+                early == IF known THEN (IF u0[3] \in Jobs THEN (IF exits[u0[3]] = 0 THEN 1 ELSE 0) ELSE 1) ELSE 0
             IN IF known /\ ~e.refused THEN [ad EXCEPT !.unacked = @ \ {u0}, !.acked = @ \cup {u0}, !.earlyack = @ + early]
                ELSE IF known THEN [ad EXCEPT !.earlyack = @ + early]
                ELSE [ad EXCEPT !.badack = @ + 1]
